@@ -4,6 +4,7 @@ package main
 // loops without invariants are executed (their guards must fold or the path budget is exceeded).
 
 import (
+	"time"
 	"fmt"
 	"go/constant"
 	"go/token"
@@ -292,6 +293,15 @@ func (c *Ctx) step(st *State, onReturn func(st *State, ret Value)) (forks []*Sta
 		}
 		if st.pcKnows(Not(cond)) {
 			return nil, c.enterBlock(st, fb)
+		}
+		if c.Spec != nil && c.Spec.Opts["prune"] != "" && st.Disc == nil {
+			// `opt prune on`: ask a solver whether each branch is feasible at all (only a proof of infeasibility prunes)
+			if c.branchInfeasible(st, cond) {
+				return nil, c.enterBlock(st, fb)
+			}
+			if c.branchInfeasible(st, Not(cond)) {
+				return nil, c.enterBlock(st, tb)
+			}
 		}
 		other := st.clone()
 		other.PathID = c.newPathID()
@@ -1612,4 +1622,21 @@ func (c *Ctx) mem(st *State, o *Object) Value {
 		return v
 	}
 	return nil
+}
+
+// branchInfeasible: pc /\ cond is unsatisfiable (quantified facts weakened away; 2 s budget; unknown = feasible).
+func (c *Ctx) branchInfeasible(st *State, cond *Term) bool {
+	var qf []*Term
+	for _, f := range st.PC {
+		qf = append(qf, weakenQuant(f, true))
+	}
+	qf = append(qf, cond)
+	q := And(qf...)
+	if q.IsFalse() {
+		return true
+	}
+	sc := Script([]*Term{q}, nil, "", TS.Defs)
+	r := runOne(solvers[0], sc, 2*time.Second, 0, fmt.Sprintf("prune%d", c.nfresh))
+	c.nfresh++
+	return r.Status == "unsat"
 }
